@@ -15,9 +15,10 @@ It answers two questions per operation:
 "Emptied" is read in the way most favourable to the code: any moment the manager holds no instance.
 """
 
-NAMES = ['File_Name', 'File_Description', 'File_Schema', 'FILE_NAME', 'file_schema', 'No_Such_Entity', 'File_Population']
+NAMES = ['File_Name', 'File_Description', 'File_Schema', 'FILE_NAME', 'file_schema', 'No_Such_Entity', 'File_Population',
+         'File', 'File_Nam', 'File_Name_Extra', 'File_S']   # the last four: proper prefixes / extensions of entity names, match nothing
 CLASS_NAME = ['file_name', 'file_description', 'file_schema']
-NAME_CLASS = [0, 1, 2, 0, 2, None, None]     # class matched by NAMES[i] (entity names are case-insensitive)
+NAME_CLASS = [0, 1, 2, 0, 2, None, None, None, None, None, None]     # class matched by NAMES[i] (entity names are case-insensitive)
 MUTATOR_EVENT = {'A': 'Append', 'DN': 'Delete', 'DI': 'Delete', 'CL': 'ClearInstances', 'DA': 'DeleteInstances'}
 
 IN_MGR, FREED, DETACHED = 0, 1, 2
